@@ -145,7 +145,7 @@ class World:
     """one engine + file DB + observer; executes op tokens"""
 
     def __init__(self, reset="rollback", tag="w", poolclass="QueuePool", listener="none", engine_opts="none",
-                 recycle=None, pre_ping=False):
+                 recycle=None, pre_ping=False, skip_ac=False):
         import sqlalchemy as sa
         from sqlalchemy import pool as sapool
         import sqlalchemy.pool.base as pbase
@@ -190,6 +190,11 @@ class World:
             kw["pool_recycle"] = recycle
         if pre_ping:
             kw["pool_pre_ping"] = True
+        self.skip_ac = skip_ac
+        if skip_ac:
+            # the dialect skips dbapi_connection.rollback() when the DBAPI connection itself
+            # reports driver-level autocommit (pysqlite: isolation_level is None)
+            kw["skip_autocommit_rollback"] = True
         self.engine = sa.create_engine(
             "sqlite://",
             creator=creator,
@@ -292,9 +297,10 @@ class World:
                 return "DISC"
             if isinstance(e, exc.IntegrityError):
                 return "IE"
-            if isinstance(e, exc.OperationalError):
-                return "OE"
-            return "DBAPI:" + type(e).__name__
+            # any other DBAPI error that is not flagged `connection_invalidated` (the injected
+            # OperationalError; or the "closed database" ProgrammingError when it was raised by
+            # the handler's own autorollback and re-raised by the re-entrant handler call)
+            return "OE"
         if type(e) is exc.InvalidRequestError:
             return "IRE"
         return "EXC:" + type(e).__name__
@@ -479,9 +485,9 @@ class World:
 
 
 def run_ops(ops, reset="rollback", tag="w", poolclass="QueuePool", listener="none", engine_opts="none",
-            recycle=None, pre_ping=False):
+            recycle=None, pre_ping=False, skip_ac=False):
     """-> list of observation records (strings), one per op"""
-    w = World(reset, tag, poolclass, listener, engine_opts, recycle, pre_ping)
+    w = World(reset, tag, poolclass, listener, engine_opts, recycle, pre_ping, skip_ac)
     try:
         return [w.step(t) for t in ops]
     finally:
@@ -495,7 +501,10 @@ def parse_record(rec):
     return dict(zip(FIELDS, rec.split("/")))
 
 
-def driver_line(ops, reset="rollback", listener="none", engine_opts="none", recycle=None):
+def driver_line(ops, reset="rollback", listener="none", engine_opts="none", recycle=None, skip_ac=False):
+    if skip_ac:
+        assert recycle is None and listener in ("none", "passive")
+        return "txn runs %s %s %s" % (reset, engine_opts, ";".join(ops) if ops else "-")
     if recycle is not None:
         assert engine_opts == "none"
         lis = "none" if listener == "passive" else listener
